@@ -14,4 +14,5 @@ let entries : (string * (byte list -> byte list)) list = [
   "machine_graph", machine_graph_line;
   "machine_spec", machine_spec_line;
   "example_model", example_model_line;
+  "enum_model", enum_model_line;
 ]
